@@ -14,7 +14,7 @@ from h2.connection import H2Connection
 
 from engine.core import (sym_int, sym_bool, sym_choice, check, note, assume_z, s_and, s_or,
                          s_not, s_eq, s_le, s_lt, s_ite, INT31, INT32, CTX, HarnessError)
-from engine import h2h, models, symmap
+from engine import h2h, models, symmap, ops
 from engine.models import sym_bytes
 from engine.runner import Shard
 from props.c09 import _sym_parity, _set_marks, _install_closed, CLOSED_BY
@@ -235,6 +235,42 @@ def h_header_list_limit(client, others):
         note('acked')
         check(dec.max_header_list_size == v, 'acknowledged-limit-not-enforced',
               (dec.max_header_list_size, v))
+        # what the PEER advertises as its own limit must not touch the limit we enforce
+        f = hf.SettingsFrame(0)
+        f.settings = {int(SettingCodes.MAX_HEADER_LIST_SIZE):
+                      sym_int('peer_limit', 0, INT32, default=2 ** 31)}
+        h2h.sym_companion(f.settings, role_client=not client, exclude=(4,))
+        h2h.deliver(me, [f])
+        check(dec.max_header_list_size == v, 'peer-setting-changes-the-limit-we-enforce',
+              (dec.max_header_list_size, v))
+    return h
+
+
+def h_closed_streams_collected():
+    """streams the peer opened and that have ended do not pile up in the stream table:
+    whatever MAX_CONCURRENT_STREAMS we advertise, the next stream the peer opens finds the
+    ended ones collected (their memory is the capped closed-stream dict)"""
+    def h():
+        with h2h.native():
+            ctx = ops.Ctx(False)
+            for sid in (1, 3, 5):
+                ops.run_op(ctx, ('HEADERS', sid, 'req', True))
+            for sid in (1, 3):
+                ops.run_op(ctx, ('send_headers', sid, 'resp', True))
+            ops.run_op(ctx, ('reset', 5))
+            ctx.me.data_to_send()
+        me = ctx.me
+        L = sym_int('max_concurrent_streams', 0, INT32, default=100)
+        h2h.Adapter.set_local_setting(me, SettingCodes.MAX_CONCURRENT_STREAMS, L)
+        out = ops.run_op(ctx, ('HEADERS', 7, 'req', False), symbolic=True)
+        note(out.cls[0])
+        if out.cls[0] == 'accept':
+            check(s_le(1, L), 'stream-accepted-beyond-limit', L)
+        else:
+            check(s_lt(L, 1), 'stream-refused-below-limit', (L, out.cls))
+        dead = [sid for sid, st in me.streams.items() if st.closed]
+        check(len(dead) == 0, 'ended-streams-retained-in-stream-table', dead)
+        check(len(me.streams) <= 1, 'stream-table-grows', len(me.streams))
     return h
 
 
@@ -292,6 +328,8 @@ def shards(tier, seed):
         out.append(Shard('oversized/%s' % r, h_oversized(client, 'OversizedHeaderListError'),
                          expect=['refused']))
     out.append(Shard('size_limit_dict', h_size_limit_dict(), expect=['inserted']))
+    out.append(Shard('closed_streams_collected', h_closed_streams_collected(),
+                     expect=['accept']))
     for n in (1, 2, 62, 63, 64, 65, 70):
         out.append(Shard('continuation_backlog/n=%d' % n, h_continuation_backlog(n, False)))
     out.append(Shard('continuation_backlog/foreign', h_continuation_backlog(5, True),
